@@ -391,7 +391,7 @@ static void v_hist(void* p, void* q, S sp, S sq)
             switch (o) {
             case 0: split_q<2>(st, [&](u64 t) { k_v_emplace(p, (unsigned)t, y); next(S{t, y}, sq); }); break;
             case 1: k_v_swap(p, q); next(sq, sp); break;
-            case 2: k_v_move_assign(p, q); next(sq, S{sq.idx, (FLAV != 2 && sq.idx < 2) ? PV(LG_MOVED_V) : sq.val}); break;
+            case 2: k_v_move_assign(p, q); next(sq, S{sq.idx, (FLAV != 2 && sq.idx < 2 && (FLAV != 3 || sp.idx != sq.idx)) ? PV(LG_MOVED_V) : sq.val}); break; // FLAV 3: same alternative = defaulted assignment, source untouched
             case 3: split_q<2>(st, [&](u64 t) { void* e = el_make((unsigned)t, y, 2); k_v_conv_assign_move(q, (unsigned)t, e, y); el_fin(e, (unsigned)t, 2); next(sp, S{t, y}); }); break;
             case 4: k_v_copy_assign(q, p); next(sp, sp); break;
             default: split_q<2>(st, [&](u64 t) { void* e = el_make((unsigned)t, y, 2); k_v_conv_assign(p, (unsigned)t, e, y); el_fin(e, (unsigned)t, 2); next(S{t, y}, sq); }); break;
@@ -417,7 +417,7 @@ static void o_hist(void* p, void* q, S sp, S sq)
             case 0: k_o_emplace(p, y); next(S{1, y}, sq); break;
             case 1: k_o_reset(p); next(S{0, sp.val}, sq); break;
             case 2: k_o_swap(p, q); next(sq, sp); break;
-            case 3: k_o_move_assign(p, q); next(sq, S{sq.idx, (FLAV != 2 && sq.idx) ? PV(LG_MOVED_V) : sq.val}); break;
+            case 3: k_o_move_assign(p, q); next(sq, S{sq.idx, (FLAV != 2 && sq.idx && (FLAV != 3 || !sp.idx)) ? PV(LG_MOVED_V) : sq.val}); break;
             case 4: k_o_assign_src(q, y); next(sp, S{1, y}); break;
             case 5: split_q<1>(st, [&](u64 t) { k_o_assign_os_move(p, t != 0, y); next(S{t, y}, sq); }); break;
             default: k_o_copy_assign(q, p); next(sp, sp); break;
